@@ -15,9 +15,8 @@
 //! the server's keys, DER verdicts, ECDSA verdicts under the client's keys) are
 //! computed with sha2 / p256 directly, never through the server or the client.
 //!
-//! `VERIF_C17_SKIP_D5=1` keeps the generator away from the D5 input class
-//! (service URL with a query, or with a path and no CUP), on which make_etag of
-//! the pinned tree panics.
+//! The generator includes the D5 input class (service URL with a query, or with a path and no CUP), on which make_etag of
+//! the pinned tree panicked (repaired in /repo a35419c).
 use crate::gal::*;
 use crate::util::*;
 use futures::executor::block_on;
@@ -620,22 +619,11 @@ fn run_sm(input: &Value) -> Case {
     use omaha_client::time::timers::StubTimer;
     use omaha_client::time::MockTimeSource;
     let kind = input["response"].as_str().unwrap().to_string();
+    // optional: after the first check, POST /set_responses_by_appid with this kind and check again
+    let then = input.get("then").and_then(|v| v.as_str()).map(|s| s.to_string());
     let forced = input["forced_etag"].as_bool().unwrap();
     let cup = input["cup"].as_bool().unwrap();
-    let result = catch_unwind(AssertUnwindSafe(|| -> (u8, String) {
-        let mut responses = HashMap::new();
-        responses.insert(
-            SM_APP.to_string(),
-            ResponseAndMetadata { response: kind_of(&kind), version: Some("1.2.3.4".to_string()), ..Default::default() },
-        );
-        let srv = OmahaServerBuilder::default()
-            .responses_by_appid(responses)
-            .private_keys(PrivateKeys { latest: PrivateKeyAndId { id: 42, key: sk(7) }, historical: vec![] })
-            .etag_override(if forced { Some("0badc0de:00".to_string()) } else { None })
-            .require_cup(cup)
-            .build()
-            .unwrap();
-        let server = Arc::new(SrvMutex::new(srv));
+    let one_check = |server: Arc<SrvMutex>| -> (u8, String) {
         let keys = PublicKeys { latest: PublicKeyAndId { id: 42, key: vk(7) }, historical: vec![] };
         let config = Config {
             updater: Updater { name: "vh".to_string(), version: [0, 1, 0, 0].into() },
@@ -671,17 +659,48 @@ fn run_sm(input: &Value) -> Case {
             }
         }
         (4, "no UpdateCheckResult event".into())
+    };
+    let result = catch_unwind(AssertUnwindSafe(|| -> Vec<(u8, String)> {
+        let mut responses = HashMap::new();
+        responses.insert(
+            SM_APP.to_string(),
+            ResponseAndMetadata { response: kind_of(&kind), version: Some("1.2.3.4".to_string()), ..Default::default() },
+        );
+        let srv = OmahaServerBuilder::default()
+            .responses_by_appid(responses)
+            .private_keys(PrivateKeys { latest: PrivateKeyAndId { id: 42, key: sk(7) }, historical: vec![] })
+            .etag_override(if forced { Some("0badc0de:00".to_string()) } else { None })
+            .require_cup(cup)
+            .build()
+            .unwrap();
+        let server = Arc::new(SrvMutex::new(srv));
+        let mut results = vec![one_check(server.clone())];
+        if let Some(k2) = &then {
+            let body = json!({ SM_APP: {"response": k2, "check_assertion": "UpdatesEnabled", "version": "1.2.3.4",
+                                        "codebase": "fuchsia-pkg://integration.test.fuchsia.com/", "package_name": "update"} });
+            let (reply, note) = call_server(&server, "/set_responses_by_appid", serde_json::to_vec(&body).unwrap());
+            match reply {
+                Some(r) if r.status == 200 => results.push(one_check(server.clone())),
+                _ => results.push((4, format!("set_responses failed: {:?}", note))),
+            }
+        }
+        results
     }));
-    let (code, text) = match result {
+    let results = match result {
         Ok(x) => x,
-        Err(_) => (5, format!("panic at {}", LAST_PANIC_LOC.lock().unwrap())),
+        Err(_) => vec![(5, format!("panic at {}", LAST_PANIC_LOC.lock().unwrap()))],
     };
     let mut out = input.clone();
-    out["impl"] = json!({"result": text});
+    out["impl"] = json!({"results": results.iter().map(|r| r.1.clone()).collect::<Vec<_>>()});
+    let gallina = match &then {
+        None => format!("KSm {} {} {} {}", kind, g_bool(forced), g_bool(cup), results[0].0),
+        Some(k2) => format!("KSmRe {} {} {} {} {}", kind, k2, g_bool(cup), results[0].0, results.get(1).map(|r| r.0).unwrap_or(5)),
+    };
     Case {
-        gallina: format!("KSm {} {} {} {}", kind, g_bool(forced), g_bool(cup), code),
+        gallina,
         json: out,
-        class: format!("sm-{}{}{}", kind, if forced { "-forced" } else { "" }, if cup { "-cup" } else { "" }),
+        class: format!("sm-{}{}{}{}", kind, then.as_ref().map(|k| format!("-then-{}", k)).unwrap_or_default(),
+                       if forced { "-forced" } else { "" }, if cup { "-cup" } else { "" }),
         nontrivial: true,
         key: serde_json::to_string(input).unwrap(),
     }
@@ -706,7 +725,7 @@ pub fn run_input(input: &Value) -> Case {
 // ---------------------------------------------------------------- generator
 const HOST: &str = "http://mock.example";
 /// (path and query of the service URL, belongs to class D5 without CUP, with CUP)
-const URLS: [(&str, bool, bool); 12] = [
+const URLS: [(&str, bool, bool); 17] = [
     ("/", false, false),
     ("", false, false),
     ("/service/update", true, false),
@@ -719,13 +738,17 @@ const URLS: [(&str, bool, bool); 12] = [
     ("/p?x=%41+b%26c&empty=&&novalue", true, true),
     ("/?", true, true),
     ("/service?cup2=1&cup2keys=2", true, true),
+    // service URLs that carry a cup2key of their own (outside the theorems' hypothesis; model = code only):
+    // the server takes the first one
+    ("/?cup2key=1:zz", false, false),
+    ("/x?cup2key=7:00&a=b", false, false),
+    ("/?cup2key=nocolon", false, false),
+    ("/?cup2key=x:1", false, false),
+    ("/?cup2ke%79=42:00", false, false),
 ];
 const PACKAGES: [&str; 4] = ["update?hash=deadbeefdeadbeefdeadbeefdeadbeefdeadbeefdeadbeefdeadbeefdeadbeef", "pkg", "p\"q\\r/é", ""];
 const CODEBASES: [&str; 4] = ["fuchsia-pkg://integration.test.fuchsia.com/", "http://example.com/x/", "日本://\u{1}", ""];
 
-fn skip_d5() -> bool {
-    std::env::var("VERIF_C17_SKIP_D5").map(|v| v == "1").unwrap_or(false)
-}
 fn shuffle<T>(rng: &mut Rng, v: &mut Vec<T>) {
     for i in (1..v.len()).rev() {
         let j = rng.below(i as u64 + 1) as usize;
@@ -856,7 +879,8 @@ fn gen_omaha(rng: &mut Rng, apps: &[Value], params: &Value, kind: u64, has_clien
     }
     let cup = has_client_keys && rng.chance(4, 5);
     let url = loop {
-        let u = rng.pick(&URLS);
+        // the last five (a cup2key in the service URL itself) are rare
+        let u = if rng.chance(1, 12) { &URLS[12 + rng.below(5) as usize] } else { &URLS[rng.below(12) as usize] };
         let in_d5 = if cup { u.2 } else { u.1 };
         if d5 || !in_d5 {
             break u.0;
@@ -958,7 +982,7 @@ fn gen_batch(rng: &mut Rng, d5: bool) -> Value {
 }
 
 pub fn generate(rng: &mut Rng, n: usize, _thorough: bool) -> Vec<Value> {
-    let d5 = !skip_d5();
+    let d5 = true;
     let mut v = vec![];
     // the configured outcomes through the real state machine
     for k in KINDS {
@@ -968,6 +992,11 @@ pub fn generate(rng: &mut Rng, n: usize, _thorough: bool) -> Vec<Value> {
     v.push(json!({"kind":"sm","response":"NoUpdate","forced_etag":true,"cup":true}));
     v.push(json!({"kind":"sm","response":"Update","forced_etag":true,"cup":true}));
     v.push(json!({"kind":"sm","response":"Update","forced_etag":true,"cup":false}));
+    // reconfiguration between two checks of the real state machine
+    v.push(json!({"kind":"sm","response":"NoUpdate","then":"Update","forced_etag":false,"cup":true}));
+    v.push(json!({"kind":"sm","response":"UrgentUpdate","then":"NoUpdate","forced_etag":false,"cup":false}));
+    v.push(json!({"kind":"sm","response":"InvalidResponse","then":"UrgentUpdate","forced_etag":false,"cup":true}));
+    v.push(json!({"kind":"sm","response":"Update","then":"InvalidResponse","forced_etag":false,"cup":false}));
     // D5, minimal: one configured app, (a) a service URL with a path and no CUP, (b) a service URL
     // with a query and CUP (the client appends cup2key after foo=bar), (c) the same URLs the other way round
     if d5 {
